@@ -184,6 +184,8 @@ def rule_h2(src, rep, it, counts):
             problem = "repr %s" % (r,)
         else:
             v = eval_repr(it, r[1])
+            if v[0] == "unknown":
+                raise AnalysisError("evaluating the repr %r is outside the evaluated subset: %s" % (r[1], v[1]))
             if v[0] != "ok" or not isinstance(v[1], (Obj, str)):
                 problem = "repr %r does not evaluate to a FmtStr: %s" % (r[1], v)
             elif per_char(v[1]) != per_char(obj):
@@ -209,6 +211,10 @@ def rule_h2(src, rep, it, counts):
         [("abc", {}), ("", {"bold": True})],
         [("the quick brown fox jumps over the lazy dog, twice: " * 2, {"fg": 31})],
         [("x" * 300, {}), ("y" * 40, {"underline": True})],
+        # texts that hold an escape character without being an escape sequence (built without parsing, e.g. by + or copy_with_new_str)
+        [("key: ", {"fg": 31}), ("\x1bOP", {})],
+        [("a\x9b1mb", {"fg": 31, "bold": True})],
+        [("tail\x1b", {"bg": 44})],
     ]
     for runs in multi:
         obj = mk(it, *runs)
@@ -217,9 +223,58 @@ def rule_h2(src, rep, it, counts):
         why = str(r)
         if r[0] == "ok" and isinstance(r[1], str):
             v = eval_repr(it, r[1])
+            if v[0] == "unknown":
+                raise AnalysisError("evaluating the repr %r is outside the evaluated subset: %s" % (r[1], v[1]))
             ok = v[0] == "ok" and isinstance(v[1], (Obj, str)) and per_char(v[1]) == per_char(obj)
             why = "repr %r evaluates to %s, the value is %s" % (r[1], per_char(v[1]) if v[0] == "ok" and isinstance(v[1], (Obj, str)) else v, per_char(obj))
         rep.ob("H2-repr-multi-run", f.where(), f.scope, "runs %s" % runs, ok, why)
+
+
+def rule_h5(src, rep, it, counts):
+    """Values arrived at through a history: equal to, hashing like, and repr-evaluating to a freshly built value with the same runs."""
+    from ..derive import derived_values
+    f_eq = src.func("formatstring", "FmtStr.__eq__")
+    dv = derived_values(it)
+    bad = []
+    for how, d in dv:
+        rep.case(True)
+        if isinstance(d, tuple):
+            bad.append((how, d[1]))
+            continue
+        runs = runs_of(d)
+        twin = mk(it, *runs)
+        try:
+            eq = it.folder.v_compare(ast.Eq(), d, twin)
+            eq2 = it.folder.v_compare(ast.Eq(), twin, d)
+        except FoldedRaise as e:
+            eq = eq2 = "raises %s" % e.name
+        except Unknown as e:
+            raise AnalysisError("FmtStr.__eq__ outside the evaluated subset: %s" % e)
+        h1, h2 = it.callm(d, "__hash__"), it.callm(twin, "__hash__")
+        if "opaque" in (h1[0], h2[0]):
+            raise AnalysisError("FmtStr.__hash__ outside the evaluated subset: %s" % (h1,))
+        if eq is not True or eq2 is not True:
+            bad.append((how, "it has the runs %s but does not compare equal to a freshly built value with the same runs (== gives %s / %s): "
+                             "its terminal string is %r, the twin's %r" % (runs, eq, eq2, _str_of(it, d), _str_of(it, twin))))
+            continue
+        if h1 != h2:
+            bad.append((how, "it equals a freshly built value with the same runs but hashes differently"))
+            continue
+        if any(t for t, _ in runs):
+            r = it.callm(d, "__repr__")
+            if r[0] == "ok" and isinstance(r[1], str) and not any("\x1b" in t or "\x9b" in t for t, _ in runs):
+                v = eval_repr(it, r[1])
+                if v[0] == "unknown":
+                    raise AnalysisError("evaluating the repr %r is outside the evaluated subset: %s" % (r[1], v[1]))
+                if v[0] != "ok" or not isinstance(v[1], (Obj, str)) or per_char(v[1]) != per_char(d):
+                    bad.append((how, "its repr %r evaluates to %s, the value has %s" % (r[1], per_char(v[1]) if v[0] == "ok" and isinstance(v[1], (Obj, str)) else v, per_char(d))))
+    counts["derived_values"] = len(dv)
+    if bad:
+        bad.sort(key=lambda x: len(x[0]))
+        rep.ob("H5-derived-values-equal-their-fresh-twin", f_eq.where(), f_eq.scope, "==, hash and repr of every value of the derived pool", False,
+               "%s: %s (%d of %d derived values)" % (bad[0][0], bad[0][1], len(bad), len(dv)), witness={"made by": bad[0][0]})
+    else:
+        rep.ob("H5-derived-values-equal-their-fresh-twin", f_eq.where(), f_eq.scope, "==, hash and repr of every value of the derived pool", True)
 
 
 def check(src, rep):
@@ -232,6 +287,7 @@ def check(src, rep):
     counts = {}
     rep.guard(rule_h1, src, rep, it, counts)
     rep.guard(rule_h2, src, rep, it, counts)
+    rep.guard(rule_h5, src, rep, it, counts)
     from .c01 import cache_coherence
     rep.guard(cache_coherence, src, rep)
     rep.extracted["counts"] = counts
